@@ -36,4 +36,8 @@ CHECKS["C01"] = dict(
    text="Held on the sampled (parameters, r, t) probes: normalised residuals of mass, momentum and energy (with the documented heat-flux term) from finite differences of fields obtained through the public call, for all twenty Coggeshall solutions, Noh (both sides), Noh2/Noh2Cog, EHEP regions I-V, fans of both Riemann solvers, Sedov interior (outside the solver's truncated core) and Guderley before/after reflection. Sampling, not proof; known genuine violations (Cog13/17/20 energy) are listed in known_findings.json.",
    design_ref="5/C01", note=_T + "; derivative error bars by Richardson; inconclusive probes are not counted as held",
    technique="PDE-residual monitor over recorded public calls (finite-difference oracle with error bars)")
+CHECKS["C02"] = dict(
+   text="Held on the sampled parameter sets/times: fronts located on the returned fields by bisection (at t and t -/+ dt), one-sided states read next to them, mass/momentum/energy jumps normalised by the summed term magnitudes; contacts, SDRZ flux constancy on table nodes, Mader CJ state, EHEP detonation front (with CJ heat release), Guderley incoming/reflected shocks and every other discontinuity in its density, RMTV isothermal shock. Sampling, not proof; Cog20's shock and Guderley's inner-core breakdown are listed known findings.",
+   design_ref="5/C02", note=_T + "; tolerance classes per solver (closed form 1e-8 ... interpolating 1e-4) with the measured accuracy of each solver's root finder",
+   technique="jump-condition monitor over recorded public calls (discontinuity locator + Rankine-Hugoniot oracle)")
 NOT_YET = {}
